@@ -21,8 +21,10 @@ import (
 	"net/http"
 	"net/http/httptest"
 	"os"
+	"os/exec"
 	"regexp"
 	"sort"
+	"strconv"
 	"strings"
 	"time"
 
@@ -219,11 +221,18 @@ func vprobeGzipSuffixes() []string {
 
 func vprobeLineLimit() int {
 	fails := func(n int) bool {
-		data := append(bytes.Repeat([]byte{'x'}, n), '\n')
-		defer func() { _ = recover() }()
-		return ProcessMongoLogFileFromReader(bytes.NewReader(data), io.Discard, nil) != nil
+		cmd := exec.Command(os.Args[0])
+		cmd.Env = append(os.Environ(), "ANONYMONGO_VERIF_PROBE_LINE="+strconv.Itoa(n))
+		out, err := cmd.Output()
+		if err != nil || len(out) == 0 {
+			return true // the process died on this line: refused
+		}
+		return out[0] == '1'
 	}
 	const top = 32 << 20
+	if fails(16) {
+		return 0 // not even a short line passes: nothing can be measured (the model keeps its default and the correspondence will say what is wrong)
+	}
 	hi := 1024
 	for hi <= top && !fails(hi) {
 		hi *= 2
@@ -233,7 +242,7 @@ func vprobeLineLimit() int {
 	}
 	lo := hi / 2 // does not fail (or is below the first probe)
 	if hi == 1024 {
-		lo = 0
+		lo = 16
 	}
 	for hi-lo > 1 {
 		mid := (lo + hi) / 2
@@ -420,6 +429,22 @@ func vatlas(rq *vreq) (res map[string]any) {
 func init() {
 	if os.Getenv("ANONYMONGO_VERIF_HARNESS") == "" {
 		return
+	}
+	// child mode of the probes: ONE probe in a process of its own, so that whatever the code under test does with it (an error, a panic, os.Exit, state kept
+	// between lines) stays inside the probe. Prints 1 when a line of n bytes is refused, 0 when it is processed; dying counts as refused.
+	if p := os.Getenv("ANONYMONGO_VERIF_PROBE_LINE"); p != "" {
+		n, _ := strconv.Atoi(p)
+		data := append(bytes.Repeat([]byte{'x'}, n), '\n')
+		devnull, _ := os.OpenFile(os.DevNull, os.O_WRONLY, 0)
+		real := os.Stdout
+		os.Stdout = devnull
+		failed := ProcessMongoLogFileFromReader(bytes.NewReader(data), io.Discard, nil) != nil
+		if failed {
+			fmt.Fprint(real, "1")
+		} else {
+			fmt.Fprint(real, "0")
+		}
+		os.Exit(0)
 	}
 	in := bufio.NewReaderSize(os.Stdin, 1<<20)
 	realStdout := os.Stdout
